@@ -109,6 +109,18 @@ Contains(s, p) == \E i \in 0..(Len(s) - Len(p)) : SubSeq(s, i + 1, i + Len(p)) =
 \* characters that are one byte long (len() of a Go string counts bytes)
 OneByte(c) == c \notin {"EACUTE", "CJK", "COMB", "MB"}
 
+\* template.JSEscapeString per character (what a partial's text becomes inside a javascript response)
+JsEscChar(c) == CASE c = "LT" -> <<"BSL","u","0","0","3","C">> [] c = "GT" -> <<"BSL","u","0","0","3","E">>
+                  [] c = "AMP" -> <<"BSL","u","0","0","2","6">> [] c = "EQ" -> <<"BSL","u","0","0","3","D">> [] c = "=" -> <<"BSL","u","0","0","3","D">>
+                  [] c = "<" -> <<"BSL","u","0","0","3","C">> [] c = ">" -> <<"BSL","u","0","0","3","E">>
+                  [] c = "APOS" -> <<"BSL","APOS">> [] c = "QUOT" -> <<"BSL","QUOT">> [] c = "BSL" -> <<"BSL","BSL">>
+                  [] c = "NL" -> <<"BSL","u","0","0","0","A">> [] c = "CR" -> <<"BSL","u","0","0","0","D">> [] c = "TAB" -> <<"BSL","u","0","0","0","9">>
+                  [] OTHER -> <<c>>
 RECURSIVE Flat(_)
 Flat(ss) == IF ss = <<>> THEN <<>> ELSE Head(ss) \o Flat(Tail(ss))
+JsEscapeChars(s) == Flat([i \in 1..Len(s) |-> JsEscChar(s[i])])
+\* the extension of a file name given as characters: "" | ".js" | ".html" ...
+RECURSIVE LastDot(_, _)
+LastDot(s, i) == IF i = 0 THEN 0 ELSE IF s[i] = "." THEN i ELSE LastDot(s, i - 1)
+ExtOf(s) == LET d == LastDot(s, Len(s)) IN IF d = 0 THEN <<>> ELSE SubSeq(s, d, Len(s))
 =============================================================================
